@@ -224,7 +224,28 @@ pub fn run(thorough: bool, seed: u64, _replay: Option<String>) -> Report {
         base.thr = 1.0;
         base.fb = false;
         let mut lists: Vec<(f32, Vec<(String, f32)>)> = vec![];
-        for &t in &grid {
+        // the grid, then – once the scores are known from the run at 0 – thresholds *at* the leading scores and one
+        // float step above / below them: the cut-off lies exactly at the score, not at a rounded neighbour
+        let mut work: Vec<f32> = grid.clone();
+        let mut wi = 0;
+        while wi < work.len() {
+            let t = work[wi];
+            wi += 1;
+            if wi == 2 {
+                if let Some((_, l0)) = lists.first() {
+                    let extra: Vec<f32> = l0
+                        .iter()
+                        .take(if thorough { 4 } else { 2 })
+                        .flat_map(|(_, sc)| {
+                            let b = sc.to_bits();
+                            [*sc, f32::from_bits(b + 1), f32::from_bits(b.saturating_sub(1)), *sc + 0.0004, (*sc - 0.0004).max(0.0)]
+                        })
+                        .filter(|x| x.is_finite() && *x >= 0.0 && *x <= 1.0)
+                        .collect();
+                    rep.count_n("sweep:thresholds-at-scores", extra.len() as u64);
+                    work.extend(extra);
+                }
+            }
             let mut s = base.clone();
             s.lthr = t;
             if let Ok(Ok(ms)) = real_detect_raw(&bytes, &s) {
